@@ -122,6 +122,10 @@ structure Class where
 /-- `"abc.ABC" in self.superclasses` -/
 def Class.isAbstract (c : Class) : Bool := c.superclasses.contains "abc.ABC"
 
+/-- the superclasses `_create_class_string` looks at: `object`, the implicit base of every class, is neither named after
+    `sub` nor counted (repair: `class A(object)` gave `class A() sub object`, a name no stub declares) -/
+def Class.renderedSupers (c : Class) : List String := c.superclasses.filter (· != "builtins.object")
+
 structure EnumInstance where
   id : String
   name : String
